@@ -170,6 +170,56 @@ func Shape(pk crypto.PublicKey) string {
 	return "."
 }
 
+// Verdict is the harness's own judgement "key k verifies sig over doc".  For a simple key it is the
+// key's VerifyBytes.  For a multisig key it is NOT the real PublicKeyMultiSignature.VerifyBytes: the
+// multi-signature is decoded and the trace carries the number of signatures and, per position, whether
+// the signature is non-empty and verifies under the member key at that position; the Lean driver
+// composes them (Ledger.multisigOk: count = number of keys, every position verifies).
+func Verdict(k crypto.PublicKey, doc, sig []byte) string {
+	safe := func(f func() bool) (v bool) {
+		defer func() {
+			if recover() != nil {
+				v = false
+			}
+		}()
+		return f()
+	}
+	m, ok := k.(crypto.PublicKeyMultiSig)
+	if !ok {
+		return fmt.Sprint(b01(safe(func() bool { return k.VerifyBytes(doc, sig) })))
+	}
+	var sigs [][]byte
+	decoded := safe(func() bool { sigs = crypto.MultiSignature{}.Unmarshal(sig).Signatures(); return true })
+	if !decoded {
+		return "M-1:-"
+	}
+	keys := m.Keys()
+	bits := ""
+	for i := 0; i < len(sigs) && i < len(keys); i++ {
+		member := Verdict(keys[i], doc, sigs[i])
+		good := len(sigs[i]) > 0 && (member == "1" || memberOK(member, keys[i]))
+		bits += fmt.Sprint(b01(good))
+	}
+	if bits == "" {
+		bits = "-"
+	}
+	return fmt.Sprintf("M%d:%s", len(sigs), bits)
+}
+
+// memberOK composes a nested multisig member's verdict (same rule as the driver's multisigOk).
+func memberOK(v string, k crypto.PublicKey) bool {
+	m, ok := k.(crypto.PublicKeyMultiSig)
+	if !ok || !strings.HasPrefix(v, "M") {
+		return false
+	}
+	var n int
+	var bits string
+	if _, err := fmt.Sscanf(v, "M%d:%s", &n, &bits); err != nil {
+		return false
+	}
+	return n == len(m.Keys()) && len(bits) == n && !strings.Contains(bits, "0") && bits != "-"
+}
+
 // AcctView is one account as the ante handler sees it.
 type AcctView struct {
 	Addr  string
@@ -397,15 +447,7 @@ func (l *Lab) ObserveAt(c Case, haltProbe bool) (line string, res abci.ResponseD
 		var ks []string
 		for _, id := range chain.SortedKeys(keys) {
 			k := keys[id]
-			ok := func() (v bool) {
-				defer func() {
-					if recover() != nil {
-						v = false
-					}
-				}()
-				return k.VerifyBytes(sd, stdTx.Signature.Signature)
-			}()
-			ks = append(ks, fmt.Sprintf("%s/%s/%s/%d", id, AddrStr(k.Address()), Shape(k), b01(ok)))
+			ks = append(ks, fmt.Sprintf("%s/%s/%s/%s", id, AddrStr(k.Address()), Shape(k), Verdict(k, sd, stdTx.Signature.Signature)))
 		}
 		keysF := "-"
 		if len(ks) > 0 {
